@@ -75,10 +75,27 @@ def paris_src():
     if len(set(types)) != 1:
         raise TranslateError('paris.pyx: similarity variables of mixed C types %s' % sorted(set(types)))
     float32 = types[0] == 'float'
+    # ---- tie branch of the nearest-neighbour scan
+    k = lines.index(_one(lines, r'if sim > max_sim:', 'strict comparison `if sim > max_sim:`').group(0))
+    if lines[k + 1:k + 3] != ['nearest_neighbor = neighbor', 'max_sim = sim']:
+        raise TranslateError('paris.pyx: unrecognised body of `if sim > max_sim:`')
+    nxt = lines[k + 3] if k + 3 < len(lines) else ''
+    choice = lines[k + 4] if k + 4 < len(lines) else ''
+    m = re.fullmatch(r'elif (.+):', nxt)
+    if m is None:
+        if nxt.startswith(('else', 'if ')) and 'max_sim' in nxt:
+            raise TranslateError('paris.pyx: unrecognised continuation of the nearest-neighbour scan: %r' % nxt)
+        tie_exact = False                                   # no tie branch
+    else:
+        cond = m.group(1).strip()
+        names = set(re.findall(r'[A-Za-z_]\w*', cond))
+        if not ({'sim', 'max_sim'} <= names) or not (re.search(r'==|>=|<=|<|>', cond) or 'isclose' in names):
+            raise TranslateError('paris.pyx: unrecognised tie test %r' % cond)
+        if not re.fullmatch(r'nearest_neighbor = .+', choice):
+            raise TranslateError('paris.pyx: unrecognised statement under the tie test: %r' % choice)
+        tie_exact = cond == 'sim == max_sim' and choice == 'nearest_neighbor = min(neighbor, nearest_neighbor)'
     # ---- decisions the model mirrors (sanity)
-    for pat, what in ((r'if sim > max_sim:', 'strict comparison `if sim > max_sim:`'),
-                      (r'elif sim == max_sim:', 'tie test `elif sim == max_sim:`'),
-                      (r'nearest_neighbor = min\(neighbor, nearest_neighbor\)', 'tie rule min(neighbor, nearest_neighbor)'),
+    for pat, what in (
                       (r'dendrogram\.append\(\[node, next_node, float\("inf"\), cluster_size\]\)', 'component row at float("inf")'),
                       (r'if self\.reorder:', '`if self.reorder:`'),
                       (r'dendrogram = reorder_dendrogram\(dendrogram\)', 'call of reorder_dendrogram'),
@@ -87,7 +104,9 @@ def paris_src():
         _one(lines, pat, what)
     return ('(* generated from sknetwork/hierarchy/paris.pyx *)\n'
             'Definition paris_src_clamp : bool := %s.\n'
-            'Definition paris_src_float32 : bool := %s.\n' % ('true' if clamp else 'false', 'true' if float32 else 'false'))
+            'Definition paris_src_float32 : bool := %s.\n'
+            'Definition paris_src_tie_exact : bool := %s.\n'
+            % ('true' if clamp else 'false', 'true' if float32 else 'false', 'true' if tie_exact else 'false'))
 
 
 FILES = {'ParisSrc.v': paris_src}
